@@ -611,6 +611,10 @@ def oracle_design(coords, spec, swap, impl, model_steps):
                                         f"grid over the extent [{float(np.min(x1))!r}, {float(np.max(x1))!r}]: {steps[:12]}"))
         return bad
     ymax_poly, ymin_poly = float(np.max(y1)), float(np.min(y1))
+    if ymax_poly == ymin_poly:
+        # all vertices on one horizontal line: not a closed contour (no interior; every probe line would have to touch
+        # the "contour" in a single point of a zero-length probe) - outside the property's quantifier
+        return bad
     for n, x2 in enumerate(steps):
         cr = line_crossings(S1, x2)
         robust = [c for c in cr if c[3] == "in"]
@@ -946,6 +950,9 @@ def process_design(ck, cases):
             if lost:
                 # exact model reports a (borderline) intersection, the doubles of the real code lose it
                 ck.count("design:abscissa_lost_to_rounding_at_a_vertex", lost)
+        _ords = np.asarray(coords, dtype=float)[:, 0 if swap else 1]
+        if len(_ords) and float(np.ptp(_ords)) == 0.0:
+            ck.count("design:flat_polygon_out_of_scope")
         bad = oracle_design(coords, spec, swap, impl, mF.get("steps", []))
         # swap_axis == exchanging the two coordinates (metamorphic, on the implementation)
         if "res" in impl:
